@@ -25,7 +25,7 @@ warnings.filterwarnings("ignore")
 
 LEAN_DIR = os.path.join(VERIF, "lean")
 DRIVER = os.path.join(LEAN_DIR, ".lake", "build", "bin", "driver")
-EVIDENCE_DIR = os.path.join(VERIF, "evidence")
+EVIDENCE_DIR = os.environ.get("VERIF_EVIDENCE_DIR") or os.path.join(VERIF, "evidence")  # scratch runs (seeded_run --scratch) write elsewhere
 REPLAY_DIR = os.path.join(VERIF, "replays")
 
 ALLOWED_AXIOMS = {"propext", "Classical.choice", "Quot.sound"}
@@ -245,6 +245,45 @@ def gen_tie_case(rng: random.Random, n: int):
             ante = gen_formula(rng, n, 2, 0.0)
         cons = lit(rng.choice(pool)) if rng.random() < 0.7 else gen_formula(rng, n, 1, 0.0)
         queries.append((cons, ante))
+    return conds, queries
+
+
+def gen_conj_case(rng: random.Random, n: int):
+    """conditionals with conjunctive consequents next to simple ones on the same guard, (x,y|g), (z|g): one conditional
+    contributes several soft clauses, so MaxSAT cost and number of falsified conditionals differ; returns (conds, queries)"""
+    atoms = list(range(n))
+    rng.shuffle(atoms)
+    x, y, z = [("a", a) for a in atoms[:3]]
+    g = ("a", atoms[3]) if n >= 4 and rng.random() < 0.6 else ("T",)
+
+    def lit(a):
+        return a if rng.random() < 0.85 else ("!", a)
+    x, y, z = lit(x), lit(y), lit(z)
+    conds = [(("&", x, y), g), (z, g)]
+    if n >= 5 and rng.random() < 0.5:
+        e = ("a", atoms[4])
+        t = ("a", atoms[3]) if g == ("T",) else g
+        conds += [(e, t) if g == ("T",) else (e, ("T",)), (("!", e), g if g != ("T",) else x)]
+    if rng.random() < 0.3:
+        conds.append(gen_cond(rng, n, 1, 0.0))
+    rng.shuffle(conds)
+
+    def andg(f):
+        return f if g == ("T",) else ("&", g, f)
+    nx = ("!", x)
+    queries = []
+    for _ in range(6):
+        r = rng.random()
+        if r < 0.35:
+            queries.append((("|", y, z), andg(("&", nx, ("!", ("&", y, z))))))
+        elif r < 0.5:
+            queries.append((rng.choice([y, z, ("!", y), ("!", z)]), andg(("&", nx, ("!", ("&", y, z))))))
+        elif r < 0.65:
+            queries.append((rng.choice([y, z, ("|", y, z)]), andg(("|", nx, ("!", z)))))
+        elif r < 0.8:
+            queries.append((rng.choice([x, y, z]), andg(("!", ("&", x, ("&", y, z))))))
+        else:
+            queries.append(gen_cond(rng, n, 2, 0.0))
     return conds, queries
 
 
@@ -578,3 +617,41 @@ class Timer:
 
     def s(self):
         return time.time() - self.t0
+
+
+# --------------------------------------------------------------------------------------
+# generic shrinker: drop elements of list-valued fields while the same failure persists
+# --------------------------------------------------------------------------------------
+
+def generic_shrink(fail, recheck, fields=("base", "queries", "ops", "facts", "revs", "conds", "formulas"), budget=40, keep=None):
+    """`recheck(case)` returns a failure dict (with "signature") or None; candidates that make recheck raise are skipped.
+    `keep(field, case)` may name a minimum length per field (default 1 for "base", 0 otherwise)."""
+    sig = fail.get("signature")
+    best = fail
+    progress = True
+    while progress and budget > 0:
+        progress = False
+        case = best["case"]
+        for fld in fields:
+            seq = case.get(fld)
+            if not isinstance(seq, list) or not seq:
+                continue
+            lo = keep(fld, case) if keep else (1 if fld == "base" else 0)
+            if len(seq) <= lo:
+                continue
+            for i in range(len(seq) - 1, -1, -1):
+                if budget <= 0:
+                    break
+                budget -= 1
+                cand = dict(case)
+                cand[fld] = seq[:i] + seq[i + 1:]
+                try:
+                    f = recheck({k: v for k, v in cand.items()})
+                except Exception:  # noqa: BLE001
+                    f = None
+                if f and f.get("signature") == sig:
+                    best, progress = f, True
+                    break
+            if progress:
+                break
+    return best
